@@ -73,6 +73,12 @@ pub struct Harness {
   pub progs: Vec<Vec<TOp>>,
   /// every logical thread owns its own clone and drops it at the end (teardown inside the schedule)
   pub own_arenas: bool,
+  /// bytes of fresh space left when the threads start (0 = use shape bit2)
+  #[serde(default)]
+  pub leave: u32,
+  /// extra bytes allocated first so that the cursor starts at an odd residue
+  #[serde(default)]
+  pub odd: u8,
 }
 
 #[derive(Clone, Copy, PartialEq, Debug)]
@@ -586,9 +592,24 @@ fn tr(tid: usize, s: impl FnOnce() -> String) {
 
 /// registration of a fresh handle: serialised with the return of the allocation call
 fn reg_alloc(tid: usize, sh: &Shared, m: Meta4, kind: &'static str, pat: u8) -> LiveH {
+  reg_alloc_req(tid, sh, m, kind, pat, None)
+}
+
+/// `req` = (requested extra bytes, fixed size, alignment) of the call, for the C03 oracle
+fn reg_alloc_req(tid: usize, sh: &Shared, m: Meta4, kind: &'static str, pat: u8, req: Option<(u32, u32, u32)>) -> LiveH {
   let (off, cap, _boff, _bcap) = m;
   let l = ENG.with(|e| {
     let mut e = e.borrow_mut();
+    if let Some((n, fixed, align)) = req {
+      let ok = match kind {
+        "bytes" | "owned-bytes" => cap == n as usize,
+        "typed" => cap == fixed as usize && off % align as usize == 0,
+        _ => cap >= (fixed + n) as usize && off % align as usize == 0,
+      };
+      if !ok {
+        e.viol.push(V { class: "capacity-or-alignment".into(), sig: format!("capacity-or-alignment:{}", kind), msg: format!("thread {} requested {} (extra {}, size {}, align {}) and got offset {} capacity {}", tid, kind, n, fixed, align, off, cap) });
+      }
+    }
     // cursor straight from memory (observer mode): header layout is repr(C) {sentinel u64, allocated u32,..}
     let allocated = unsafe { std::ptr::read_volatile((e.rg.header + 8) as *const u32) } as usize;
     for l in e.live.clone() {
@@ -726,21 +747,21 @@ fn run_thread(tid: usize, sh: &Shared, prog: &[TOp], mine: Option<Arena>) {
       TOp::B(n) => match a.alloc_bytes(n) {
         Ok(mut b) => {
           unsafe { b.detach() };
-          own.push(reg_alloc(tid, sh, meta_of(&b), "bytes", 0xA0 + tid as u8));
+          own.push(reg_alloc_req(tid, sh, meta_of(&b), "bytes", 0xA0 + tid as u8, Some((n, 0, 1))));
         }
         Err(_) => tr(tid, || format!("B{n} failed")),
       },
       TOp::U64 => match unsafe { a.alloc::<u64>() } {
         Ok(mut b) => {
           unsafe { b.detach() };
-          own.push(reg_alloc(tid, sh, meta_of(&b), "typed", 0xB0 + tid as u8));
+          own.push(reg_alloc_req(tid, sh, meta_of(&b), "typed", 0xB0 + tid as u8, Some((0, 8, 8))));
         }
         Err(_) => tr(tid, || "U64 failed".into()),
       },
       TOp::AB(n) => match a.alloc_aligned_bytes::<u64>(n) {
         Ok(mut b) => {
           unsafe { b.detach() };
-          own.push(reg_alloc(tid, sh, meta_of(&b), "aligned-bytes", 0xD0 + tid as u8));
+          own.push(reg_alloc_req(tid, sh, meta_of(&b), "aligned-bytes", 0xD0 + tid as u8, Some((n, 8, 8))));
         }
         Err(_) => tr(tid, || format!("AB{n} failed")),
       },
@@ -854,6 +875,10 @@ pub fn run_one(h: &Harness, prefix: &[u8], o: &ExecOpts) -> ExecOut {
   let dof = cfg.data_offset();
   let base = arena.raw_mut_ptr();
   // ---- initial shape (no hook installed: not part of the schedule)
+  if h.odd > 0 {
+    let mut b = arena.alloc_bytes(h.odd as u32).expect("init odd");
+    unsafe { b.detach() };
+  }
   let c_size = if h.shape & 8 != 0 { 56 } else { 40 };
   let sizes = [40u32, 40, c_size, 24, 24];
   let mut blocks = vec![];
@@ -862,7 +887,7 @@ pub fn run_one(h: &Harness, prefix: &[u8], o: &ExecOpts) -> ExecOut {
     unsafe { b.detach() };
     blocks.push(meta_of(&b));
   }
-  let rem = arena.remaining() as u32 - if h.shape & 4 != 0 { 24 } else { 0 };
+  let rem = arena.remaining() as u32 - if h.leave > 0 { h.leave.min(arena.remaining() as u32) } else if h.shape & 4 != 0 { 24 } else { 0 };
   let mut d = arena.alloc_bytes(rem).expect("init fill");
   unsafe { d.detach() };
   let dm = meta_of(&d);
